@@ -50,9 +50,13 @@ pub fn parse_local_segments(local: &str) -> Vec<LocalSegment> {
     normalized
         .split('.')
         .map(|part| {
-            if !part.is_empty() && part.chars().all(|c| c.is_ascii_digit()) {
-                LocalSegment::new_uint(part.parse().unwrap_or(0))
+            if !part.is_empty()
+                && part.chars().all(|c| c.is_ascii_digit())
+                && let Ok(number) = part.parse()
+            {
+                LocalSegment::new_uint(number)
             } else {
+                // Also digits that do not fit: kept as text instead of being replaced by 0
                 LocalSegment::try_new_str(part.to_string()).unwrap()
             }
         })
@@ -111,11 +115,6 @@ impl FromStr for PEP440 {
         }
 
         if let Some(local_match) = captures.name("local") {
-            if let Some(part) = local_match.as_str().split(['-', '_', '.']).find(|part| {
-                part.chars().all(|c| c.is_ascii_digit()) && part.parse::<u32>().is_err()
-            }) {
-                return Err(out_of_range(part));
-            }
             version = version.with_local(local_match.as_str());
         }
 
